@@ -69,7 +69,7 @@ def run(ctx):
     ]
     _, insts = bp.max_run(ctx, "c13_a", NS=2, NI=3, G=2, mult=1, max_edges=2 if q else 3, ins=(0, 1), lik=(1, 2),
                           emit=True)
-    _, more = bp.max_run(ctx, "c13_b", simulate=300 if q else 3000, NS=2, NI=4, G=3, mult=2, max_edges=5,
+    _, more = bp.max_run(ctx, "c13_b", simulate=300 if q else 8000, NS=2, NI=4, G=3, mult=2, max_edges=5,
                          ins=(0, 1, 2), lik=(1, 2, 3), emit=True)
     sim = list(more)
     if not q:
